@@ -172,7 +172,7 @@ for _name, _dunder, _op, _expect in (('iand', '__iand__', '&=', 'inu and inv'), 
                         tier='quick', kind='main',
                         bound='two subsets of <= 1 entry each over a universe of 8 code points (the operator iterates single code points)'),
            globals())
-    define(_SRC2.format(name=_name + '_membership_u16', dunder=_dunder, op=_op, expect=_expect, top='16', budget=1500, mmax=2, nmax=2,
+    define(_SRC2.format(name=_name + '_membership_u16', dunder=_dunder, op=_op, expect=_expect, top='16', budget=240, mmax=2, nmax=2,
                         tier='thorough', kind='hunt',
                         bound='two subsets of <= 2 entries each over a universe of 16 code points (not exhausted in 300 s: bug-hunting)'),
            globals())
